@@ -7,9 +7,10 @@ cd "$wt" || exit 2
 git diff -- dateparser dateparser_data dateparser_scripts > /tmp/seed_$id.diff
 [ -s /tmp/seed_$id.diff ] || { echo "no diff"; exit 2; }
 PYTHONPATH=$wt /venv/bin/python demo.py > /tmp/seed_$id.with 2>&1; with=$?
-git stash -q -- dateparser dateparser_data dateparser_scripts
+# (not `git stash`: the stash is shared by all worktrees of a repository, concurrent runs would swap their changes)
+git apply -R /tmp/seed_$id.diff || { echo "cannot reverse"; exit 2; }
 PYTHONPATH=$wt /venv/bin/python demo.py > /tmp/seed_$id.without 2>&1; without=$?
-git stash pop -q
+git apply /tmp/seed_$id.diff || { echo "cannot re-apply"; exit 2; }
 suite=$(PYTHONPATH=$wt /venv/bin/python -m pytest -q -p no:cacheprovider --timeout=900 --continue-on-collection-errors 2>&1 | tail -1)
 echo "$id demo_with=$with demo_without=$without suite: $suite"
 if [ $with -ne 0 ] && [ $without -eq 0 ] && echo "$suite" | grep -q "5 failed, 23933 passed, 16 skipped, 1 error"; then
